@@ -132,8 +132,9 @@ def reference(tree, op):
         ops.append({'op': 'decompose', 'obj': x, 'smiles': op['smiles']})
     if op['op'] == 'eval':
         ops.append(dict(op, obj=x))
-    if op['op'] in ('fingerprint', 'merge'):
+    if op['op'] == 'fingerprint':
         ops.append({'op': 'fingerprint', 'obj': x})
+    # for a merge the recipe ends with that very merge: its own record (fingerprint or exception) is the reference
     r, diag = vlib.run_impl('history', {'cases': [{'ops': ops}]}, timeout=600)
     return r['results'][0]['outs'][-1] if r else {'exc': 'child: ' + diag[:100]}
 
